@@ -7,6 +7,8 @@ import (
 	"vharness/c04"
 	"vharness/c05"
 	"vharness/c06"
+	"vharness/c07"
+	"vharness/c08"
 	"vharness/c09"
 	"vharness/c14"
 	"vharness/c15"
@@ -29,6 +31,8 @@ func init() {
 	add("c04", c04.Harnesses)
 	add("c05", c05.Harnesses)
 	add("c06", c06.Harnesses)
+	add("c07", c07.Harnesses)
+	add("c08", c08.Harnesses)
 	add("c09", c09.Harnesses)
 	add("c14", c14.Harnesses)
 	add("c15", c15.Harnesses)
